@@ -31,6 +31,12 @@ Judge(e) ==
             \* with --all-files the text channel shows everything and announces nothing as hidden
             \o (IF e.cli_ev = "ok" /\ Bag(Proj(e.cli_af)) # Bag(want) THEN << "C15:cli-all-files-text:differs-from-flattened-file" >> ELSE <<>>)
             \o (IF e.cli_ev = "ok" /\ e.cli_af_hidden # 0 THEN << "C15:cli-all-files-text:announces-hidden-diagnostics" >> ELSE <<>>)
+            \* the same tree with every include written as an absolute path
+            \o (IF e.abs_run /\ Bag(Proj(e.abs_all)) # Bag(want) THEN << "C15:cli-absolute-paths:differs-from-flattened-file" >> ELSE <<>>)
+            \o (IF e.abs_run /\ Bag(Proj(e.abs_base)) # Bag(SelectSeq(want, LAMBDA d : d.file = "main.s"))
+                  THEN << "C15:cli-absolute-paths:base-file-view-differs" >> ELSE <<>>)
+            \o (IF e.abs_run /\ e.abs_hidden # Len(SelectSeq(want, LAMBDA d : d.file # "main.s"))
+                  THEN << "C15:cli-absolute-paths:hidden-count" >> ELSE <<>>)
     ELSE \* the directive is on line c.dirline of file c.dirfile; twin = same tree with that line blank
       LET onDir(ds) == SelectSeq(ds, LAMBDA d : d.file = c.dirfile /\ d.line = c.dirline)
           rest(ds)  == SelectSeq(ds, LAMBDA d : ~(d.file = c.dirfile /\ d.line = c.dirline))
